@@ -4,10 +4,12 @@ package dbSync
 //
 //vf:job C03 quick VF_C03_Send k=2 resume=0 sc=0..2
 //vf:job C03 quick VF_C03_Barrier
-//vf:job C03 thorough VF_C03_Send k=3 resume=0 sc=0..2
+//vf:job C03 thorough VF_C03_Send k=3 resume=0 sc=0..2 opt_preempt=1
+//vf:job C03 thorough VF_C03_Send k=2 resume=0 sc=0..2
 //vf:job C04 quick VF_C03_Send k=2 resume=1 sc=0..2
 //vf:job C04 quick VF_C04_ResumeLeg
-//vf:job C04 thorough VF_C03_Send k=3 resume=1 sc=0..2
+//vf:job C04 thorough VF_C03_Send k=3 resume=1 sc=0..2 opt_preempt=1
+//vf:job C04 thorough VF_C03_Send k=2 resume=1 sc=0..2
 //vf:replayE C03 VF_C03_Send
 //vf:replayE C04 VF_C03_Send VF_C04_ResumeLeg
 //vf:opt C03 preempt=1 thorough_preempt=2
